@@ -167,6 +167,8 @@ pub struct World<'a> {
     pub aux: Rng,
     pub blocks_since_start: u32,
     pub final_memory: BTreeMap<(String, usize), (Option<ScriptBuf>, Option<Witness>)>,
+    pub collect_artifacts: bool,
+    pub artifacts: Vec<(&'static str, Vec<u8>)>,
 }
 
 pub struct RunResult {
@@ -177,6 +179,7 @@ pub struct RunResult {
     pub log_digest: u64,
     pub log: Vec<String>,
     pub harness_errors: Vec<String>,
+    pub artifacts: Vec<(&'static str, Vec<u8>)>,
 }
 
 fn dummy_txin() -> TxIn { TxIn { previous_output: OutPoint::null(), script_sig: ScriptBuf::new(), sequence: Sequence::MAX, witness: Witness::new() } }
@@ -259,6 +262,8 @@ impl<'a> World<'a> {
             aux: Rng::new(mix(&[run_seed, 0x617578])),
             blocks_since_start: 0,
             final_memory: BTreeMap::new(),
+            collect_artifacts: false,
+            artifacts: vec![],
         })
     }
 
@@ -282,6 +287,14 @@ impl<'a> World<'a> {
     // transport
     // -----------------------------------------------------------------------------------------
     fn send(&mut self, from: Actor, to: Actor, msg: Msg, counter: u64) {
+        if self.collect_artifacts {
+            match &msg {
+                Msg::PsbtRequest { bytes, .. } => self.artifacts.push(("psbt", bytes.clone())),
+                Msg::PsbtReply { bytes, .. } => self.artifacts.push(("psbt", bytes.clone())),
+                Msg::Broadcast { bytes } => self.artifacts.push(("tx", bytes.clone())),
+                _ => {}
+            }
+        }
         let key = format!("{}>{}#{}", from.name(), to.name(), counter);
         if self.dec.fault(Fault::Drop, &key, 8, 100, 1) != 0 {
             self.logev(&from.name(), "drop", key.as_bytes());
@@ -373,6 +386,7 @@ impl<'a> World<'a> {
             log_digest: self.log_digest,
             log: self.log,
             harness_errors,
+            artifacts: self.artifacts,
         }
     }
 
